@@ -5,7 +5,7 @@ PROP = {
     "rule": ("histories of <=60 requests to 1-3 strategy-based throttling remedies (allowed 1-10, window 1-5 s, optional status, "
              "optional group allocation table with integer/non-integer/0/>100 percentages and default behaviour allow/block/"
              "use_default_allocation/undefined) at exact virtual instants k*W, k*W+1ns, k*W+W/2, (k+1)*W-1ns, repeated and random, "
-             "with window-size changes between requests (TestSequentialWindows, TestIsolation) and bursts of 2-8 concurrent callers "
+             "with window-size changes between requests (TestSequentialWindows, TestIsolation) and bursts of 2-32 requests issued by up to 8 concurrent callers "
              "(TestBurst), driven through StrategyBasedThrottlingPlugin.OnRequest over limit.NewRateLimitState on a virtual clock; "
              "non-trivial = a request of a (remedy, group) that was seen before arrives exactly on a grid instant while the previous "
              "window is full or the new one empty, or >=2 groups of one remedy are active in one window (sequential unit); >=2 "
@@ -23,7 +23,7 @@ PROP = {
     "units": [
         {"pkg": "c09", "test": "TestSequentialWindows", "quick": 20000, "thorough": 100000, "shards": 16},
         {"pkg": "c09", "test": "TestIsolation", "quick": 6000, "thorough": 30000, "shards": 8},
-        {"pkg": "c09", "test": "TestBurst", "quick": 20000, "thorough": 30000, "shards": 8},
+        {"pkg": "c09", "test": "TestBurst", "quick": 6000, "thorough": 30000, "shards": 8},
         {"pkg": "c09", "test": "TestWitnessBoundaryInstant", "kind": "plain"},
     ],
     "technique": ("property-based testing (rapid) of generated arrival histories on a harness-owned virtual clock; oracle = reference counter "
